@@ -747,6 +747,10 @@ def compare(self, op: str, l: Term, r: Term, st: State, node=None) -> Term:
             return C(known[1] if op == "Is" else not known[1])
         if l.op in ("class", "func") and r.op in ("class", "func"):
             return C((l is r) if op == "Is" else (l is not r))
+        # a sentinel `_x = object()` at module level is identical to nothing but itself
+        for a, b in ((l, r), (r, l)):
+            if a.op == "global" and (is_const(b) or b.op in ("sbytes", "tuple", "ref", "class", "func")) and _is_object_sentinel(self, a):
+                return C(op == "IsNot")
     if op in ("In", "NotIn"):
         ro = self.obj(st, r)
         if ro is not None and ro.kind == "dict" and ro.exact and self.sym_bytes and not is_const(l) and l.op not in ("phi",):
@@ -809,6 +813,17 @@ def _sbytes_equal(self, l: Term, r: Term):
                 if fa and fb and not (ka[0] is kb[0] and ka[1] is kb[1]):
                     return False
     return None
+
+
+def _is_object_sentinel(self, g: Term) -> bool:
+    m = self.prog.modules.get(g.args[0])
+    if m is None:
+        return False
+    for st_ in m.tree.body:
+        if isinstance(st_, ast.Assign) and len(st_.targets) == 1 and isinstance(st_.targets[0], ast.Name) and st_.targets[0].id == g.args[1]:
+            v = st_.value
+            return isinstance(v, ast.Call) and isinstance(v.func, ast.Name) and v.func.id == "object" and not v.args and not v.keywords
+    return False
 
 
 def _none_status(self, t: Term, st: State):
